@@ -2,7 +2,8 @@
 # thorough tier of every check, sequentially, cheap ones first; logs exit code and wall time
 cd /verif
 out=work/sweepT_$(date +%H%M).log
-for id in C31 C30 C29 C28 C03 C02 C01 C15 C33 C36 C32 C22 C26 C34 C35 C21 C20 C04 C05 C09 C08 C07 C06 C14 C27 C39 C37 C38 C24 C25 C12 C11 C16 C17 C18 C19 C10 C13 C23; do
+ids="$*"; [ -z "$ids" ] && ids="C31 C30 C29 C28 C03 C02 C01 C15 C33 C36 C32 C22 C26 C34 C35 C21 C20 C04 C05 C09 C08 C07 C06 C14 C27 C39 C37 C38 C24 C25 C12 C11 C16 C17 C18 C19 C10 C13 C23"
+for id in $ids; do
   s=$(date +%s); nice -n 10 ./check $id --tier thorough > work/sweepT_$id.out 2>&1; rc=$?; e=$(date +%s)
   echo "$id rc=$rc t=$((e-s))s known=$(grep -c KNOWN-FINDING work/sweepT_$id.out) viol=$(grep -c '^VIOLATION' work/sweepT_$id.out)" >> $out
   [ -f work/sweepT_stop ] && break
